@@ -134,4 +134,18 @@ theorem unlocked_stale_cache :
     let s := [0, 1, 1, 0].foldl writeUnlocked ⟨0, 0, [0, 0]⟩
     s.main = 2 ∧ s.cache = 1 ∧ s.pcs = [2, 2] := by decide
 
+/-! ## `Provider.OpenStore`: look the name up, register a new store when it is absent
+
+The same shape as scan-then-insert: `sessions` counts the store OBJECTS made for one name (every thread that saw the name
+absent makes its own and registers it; the last registration wins, the others stay in the hands of their openers: writes
+through them are invisible to everybody else — seeded change C13-5). With lookup and registration in one critical section
+(`mem.Provider.OpenStore` holds the provider lock across both) every schedule yields one object per name. -/
+
+theorem open_store_one_object_per_name (s : SessSt) (sched : List Nat) (h : s.sessions ≤ 1) :
+    (run stepLocked s sched).sessions ≤ 1 := locked_at_most_one s sched h
+
+/-- lookup under the read lock, registration under the write lock, no re-check: two first opens give two stores -/
+theorem open_store_unlocked_two_objects :
+    (run stepUnlocked ⟨0, [.start, .start]⟩ [0, 1, 0, 1]).sessions = 2 := unlocked_two_sessions
+
 end Interleave
